@@ -31,7 +31,8 @@ N_ROWS = 2500  # more rows than the default query limit, so that any fixed-size 
 
 LEVEL = "other"
 LEVEL_TEXT = (
-    "Static check of the wiring clause only: the glue functions between store, merging, rewriting, TypedDict replacement "
+    "Static check of the wiring clause and of the stage conditions seeded changes showed to matter (every container element inspected, every frame "
+    "exit recorded, distinct rows surviving the query, no stale memo in the tracer or in get_type): the glue functions between store, merging, rewriting, TypedDict replacement "
     "and signature update are interpreted abstractly and must pass every observed type on, choose the rewriter and the limit "
     "from the configuration and keep every generated class stub. Whether the final annotation admits the observed values is "
     "NOT decided here (it is a value round trip); its per-stage necessary conditions are claimed under C04/C06/C07/C08/C10/"
